@@ -29,6 +29,21 @@ PROPS = {
                          "IPv6 socket-address text form is a parameter (table sampled from std::net per case)"],
         "assumptions": ["std parses the IPv6 text it prints"],
     },
+    "C09": {
+        "props_module": "Redproxy.Props.C09",
+        "mode": "c09",
+        "translators": ["ladder.py"],
+        "rule": "program texts rendered from trees: every documented operator alone, every ordered pair (both shapes) and triple of the 26 "
+                "binary spellings, unary/postfix against every binary, random trees to depth 6 incl. if/?:/let/arrays/tuples/calls, each in "
+                "minimal-parenthesis and fully parenthesised form and with blank/comment filler at token boundaries; directed malformed "
+                "texts; non-trivial = contains at least one operator; distinct = distinct texts",
+        "nontrivial": lambda c, i: len(c) > 12,
+        "trusted_base": ["translate/ladder.py extracts the op_rule! ladder, unary tags and spelling maps from milu/src/parser.rs and the "
+                         "documented table from milu/readme.md (regex level; cross-checked because the generated tables drive the executable "
+                         "parser model that is compared with the real parser)",
+                         "hand-written parser model Redproxy/Model/MiluParser.lean; template strings and \\u escapes not modelled"],
+        "assumptions": [],
+    },
     "C05": {
         "props_module": "Redproxy.Props.C05",
         "mode": "c05", "model_mode": "codec",
